@@ -66,6 +66,7 @@ func replay(path string) {
 		Property string          `json:"property"`
 		Tier     string          `json:"tier"`
 		Case     json.RawMessage `json:"case"`
+		Exe      string          `json:"exe"`
 	}
 	if err := json.Unmarshal(b, &rp); err != nil {
 		fmt.Fprintln(os.Stderr, err)
@@ -79,6 +80,15 @@ func replay(path string) {
 	if !ok {
 		fmt.Fprintln(os.Stderr, "unknown property", rp.Property)
 		os.Exit(2)
+	}
+	if rp.Exe != "" {
+		// the case was found by another build of the harness (e.g. the width-narrowed one)
+		if self, _ := os.Executable(); self != rp.Exe {
+			if err := syscall.Exec(rp.Exe, []string{rp.Exe, "replay", path}, os.Environ()); err != nil {
+				fmt.Fprintln(os.Stderr, "cannot exec", rp.Exe, err)
+				os.Exit(2)
+			}
+		}
 	}
 	if ck.ReplayExe != "" {
 		self, _ := os.Executable()
